@@ -233,6 +233,13 @@ class Undecided(Exception):
 
 
 # ---------------------------------------------------------------- one job
+def src_path(s):
+    """extra source: 'repo:pixman/x.c' = file of the tree under check, '/abs', or relative to /verif"""
+    if s.startswith("repo:"):
+        return os.path.join(REPO, s[5:])
+    return s if s.startswith("/") else os.path.join(VERIF, s)
+
+
 def solver_flags(job):
     if job.solver == "kissat":
         return ["--external-sat-solver", "kissat"]
@@ -242,7 +249,7 @@ def solver_flags(job):
 def build_job(job, workdir, extra_defs=None):
     hpath = os.path.join(VERIF, "harness", job.harness)
     gb = os.path.join(workdir, "a.gb")
-    srcs = [hpath] + [os.path.join(VERIF, s) if not s.startswith("/") else s for s in job.extra_sources]
+    srcs = [hpath] + [src_path(s) for s in job.extra_sources]
     defs = {"VH_CBMC": 1}
     if job.nocanary:
         defs["VH_NO_CANARY"] = 1
@@ -282,7 +289,7 @@ def build_job(job, workdir, extra_defs=None):
 
 
 def cbmc_cmd(job, gb, trace=False):
-    cmd = ["cbmc", gb, "--json-ui", "--drop-unused-functions"] + solver_flags(job)
+    cmd = ["cbmc", gb, "--json-ui", "--drop-unused-functions", "--no-malloc-may-fail"] + solver_flags(job)
     if job.unwind is not None:
         cmd += ["--unwind", str(job.unwind), "--unwinding-assertions"]
     if job.object_bits:
@@ -447,7 +454,7 @@ def native_replay(job, ins, outdir):
     write_inputs(ins, inp)
     exe = os.path.join(scratch(), "replay-%s" % hashlib.md5((job.name + str(time.time())).encode()).hexdigest()[:10])
     hpath = os.path.join(VERIF, "harness", job.harness)
-    srcs = [hpath] + [os.path.join(VERIF, s) if not s.startswith("/") else s for s in job.extra_sources]
+    srcs = [hpath] + [src_path(s) for s in job.extra_sources]
     cmd = (["gcc", "-O0", "-g", "-w", "-fsanitize=address,undefined", "-fno-sanitize-recover=undefined", "-msse2", "-mssse3"]
            + include_flags() + define_flags(job, {"VH_REPLAY": 1, "VH_ENTRY": job.entry, "VH_INPUTS_FILE": '"%s"' % inp})
            + srcs + ["-o", exe, "-lm", "-lpthread"])
